@@ -117,6 +117,7 @@ func NewRenderContext(env *Environment, context map[string]interface{}, engine *
 	ctx.parent = nil
 	ctx.inParentCall = false
 	ctx.sandboxed = false
+	ctx.lastLoadedTemplate = nil // Set by the caller; must not survive from the pooled object's last use
 
 	// Copy the context values directly
 	if context != nil {
@@ -135,6 +136,7 @@ func (ctx *RenderContext) Release() {
 	ctx.engine = nil
 	ctx.currentBlock = nil
 	ctx.blockChain = nil
+	ctx.lastLoadedTemplate = nil
 
 	// Save the maps so we can return them to their respective pools
 	contextMap := ctx.context
